@@ -88,6 +88,9 @@ def val_unjson(j: Any) -> Any:
 
 
 NAN = float("nan")
+# long strings that differ only after a long common prefix (bounds must not be truncated / rounded)
+LONG_A = "https://example.org/" + "p" * 300 + "/a"
+LONG_B = "https://example.org/" + "p" * 300 + "/b"
 INF = float("inf")
 
 # column kinds: iceberg type name -> small value domain (cells; None = NULL added separately)
@@ -96,7 +99,7 @@ DOMAIN: Dict[str, List[Any]] = {
     "int": [-1, 0, 1, 2, 5],
     "double": [-1.5, 0.0, 1.0, 2.5, 5.0, NAN, INF, -INF],
     "float": [-1.5, 0.0, 0.1, 1.0, 5.0, NAN],
-    "string": ["", "a", "ab", "b", "123", "é"],
+    "string": ["", "a", "ab", "b", "123", "é", LONG_A, LONG_B],
     "boolean": [False, True],
     "timestamp": [dt.datetime(2020, 1, 1), dt.datetime(2020, 1, 1, 0, 0, 0, 5), dt.datetime(2021, 6, 1, 12)],
     "date": [dt.date(2020, 1, 1), dt.date(2020, 1, 2), dt.date(1969, 12, 31)],
@@ -107,7 +110,7 @@ DOMAIN: Dict[str, List[Any]] = {
 LITERALS: List[Any] = [
     -2, -1, 0, 1, 2, 3, 5, 6, 2**53, 2**53 + 1, 2**53 + 2,
     -1.5, 0.0, 0.1, 0.5, 1.0, 2.5, 5.0, 5.5, NAN, INF, -INF,
-    "", "a", "aa", "b", "c", "123", "é",
+    "", "a", "aa", "b", "c", "123", "é", LONG_A, LONG_B, LONG_A[:64],
     False, True, None,
     dt.datetime(2019, 1, 1), dt.datetime(2020, 1, 1), dt.datetime(2020, 1, 1, 0, 0, 0, 5), dt.datetime(2022, 1, 1),
     dt.date(2020, 1, 1), dt.date(2020, 1, 2), dt.date(2025, 1, 1),
